@@ -14,13 +14,20 @@ Kinds of case (field "kind"):
            after a group, one-entry chunks); key kinds: text column (ragged), StringEncoding column, integer column,
            ragged array without column
   chrommap streams.grouped.chromosome_map (with and without reduction) over groupby(stream)
-  rechunk  chunk_entries / chunk_lines for every incoming chunking x every n_entries
+  rechunk  chunk_entries / chunk_lines for every incoming chunking x every n_entries; also incoming streams WITH empty chunks
+           (every cutting x every way of inserting empty chunks: leading, inner, trailing, several in a row; the all-empty
+           stream) - signatures rechunk:<fn>:empty-incoming-chunks:...
+  bigcount count_kmers / count_encoded on in-memory tables and on streams whose chunks hold MORE than 1,000,000 values (the
+           size above which count_encoded counts block-wise) against the per-element count
   graph    computation_graph: StreamNode columns -> ufunc expressions, np.sum / np.mean / np.histogram reductions, compute of
            node / list / tuple / dict, nodes sharing an upstream node (lock step)
   genomic  Genome(1..4 chromosomes).get_intervals(stream) / get_track(stream) pipelines evaluated with compute:
            intervals, pileup, mask, values under intervals (second stream with its own chunking), stranded windows,
-           sum / histogram / mean reductions, joint reductions
-  file     BED file -> bnp.open().read_chunks(min_chunk_size=k) for every k -> groupby / mean / pileup
+           sum / histogram / mean reductions, joint reductions; mean(axis=0) over extracted windows of UNEQUAL length
+           (windows with their own per-chromosome counts and chunking; the longest window has the same length on every
+           chromosome that has windows; a small sub-scope where it has not, under its own signature)
+  file     BED file -> bnp.open().read_chunks(min_chunk_size=k) for every k -> groupby / mean / pileup / chunk-wise filter
+           (leaves empty chunks) followed by chunk_lines / chunk_entries
   histauto bnp.histogram with data-dependent edges (bins=int, no range) - literal reading of the statement
 """
 import itertools
@@ -32,6 +39,10 @@ PID = "C11"
 # exhaustive bound on the number of entries n per kind of case (all 2^(n-1) cut sets for every n up to the bound)
 NMAX = {"quick": {"reduce": 8, "kmers": 6, "groupby": 6, "rechunk": 7, "graph": 7},
         "thorough": {"reduce": 10, "kmers": 9, "groupby": 8, "rechunk": 10, "graph": 10}}
+
+
+# re-chunking of streams that contain empty chunks: (largest n, largest number of empty chunks; n = largest n gets one)
+RECHUNK_EMPTY = {"quick": (5, 2), "thorough": (7, 3)}
 
 
 # ----------------------------------------------------------------------------------------------------------------------
@@ -56,6 +67,21 @@ def sampled_cuts(n, rng, k):
             seen.add(c)
             out.append(list(c))
     return out
+
+
+def cuts_with_empties(n, max_empty):
+    """every cut list (weakly increasing, values 0..n) that cuts n entries into consecutive chunks of which 1..max_empty
+    are EMPTY: each cutting into non-empty chunks x each multiset of positions (before the first chunk, between two chunks,
+    after the last chunk) at which an empty chunk is inserted.  pieces() turns a repeated cut position into an empty chunk."""
+    if n == 0:
+        for e in range(0, max_empty):
+            yield [0] * e           # e + 1 chunks, all empty
+        return
+    for cuts in all_cuts(n):
+        b = [0] + cuts + [n]
+        for e in range(1, max_empty + 1):
+            for pos in itertools.combinations_with_replacement(range(len(b)), e):
+                yield sorted(cuts + [b[p] for p in pos])
 
 
 def compositions(n):
@@ -344,6 +370,106 @@ def gen_kmers(tier, rng):
 
 
 # ----------------------------------------------------------------------------------------------------------------------
+# kind "bigcount": symbol / k-mer counts of chunks and in-memory tables with MORE values than the block size (1,000,000)
+# above which count_encoded counts block-wise.  The statement has no size bound: the count of a big chunk, of the big
+# in-memory table and of the same data streamed in small chunks must all be the per-element count.
+# ----------------------------------------------------------------------------------------------------------------------
+BIG_BLOCK = 1000000
+BIG_LENS = {"equal": (100,), "ragged": (37, 100, 6, 250, 64, 151)}    # read lengths, cyclic (all >= largest k)
+# number of counted values (k-mers, symbols) per dataset: just above the block size, between one and two blocks; thorough:
+# the sizes around one block, an exact multiple, just above two blocks, between three and four blocks
+BIG_TOTALS = {"quick": ((1000001, "ragged"), (1237411, "equal")),
+              "thorough": ((1000001, "ragged"), (1237411, "equal"), (999999, "equal"), (1000000, "ragged"), (2000000, "equal"),
+                           (2000001, "ragged"), (3141593, "ragged"))}
+BIG_FNS = ("count_kmers:3", "count_encoded:flat", "count_encoded:ragged-axis-None")   # thorough: + count_kmers:5 on two datasets
+_BIG = {}
+
+
+def big_read_lens(total, lens, k):
+    """lengths of the reads that hold exactly `total` windows of k symbols (windows never span two reads)"""
+    pat, out, left, i = BIG_LENS[lens], [], total, 0
+    while left > 0:
+        m = min(pat[i % len(pat)] - k + 1, left)
+        out.append(m + k - 1)
+        left -= m
+        i += 1
+    return out
+
+
+def big_dataset(total, lens, k):
+    """(text of all reads, read lengths, per-element k-mer counts {k-mer text: count}); cached (one dataset at a time)"""
+    key = (total, lens, k)
+    if key not in _BIG:
+        import numpy as np
+        _BIG.clear()
+        read_lens = big_read_lens(total, lens, k)
+        a = np.arange(sum(read_lens), dtype=np.uint64)
+        codes = (((a * np.uint64(2654435761)) >> np.uint64(13)) % np.uint64(4)).astype(np.uint8)  # fixed pseudo-random bases
+        text = codes.tobytes().translate(bytes.maketrans(bytes(range(4)), b"ACGT")).decode("ascii")
+        ref, pos = {}, 0
+        if k == 1:
+            ref = {c: text.count(c) for c in "ACGT" if text.count(c)}
+        else:
+            for L in read_lens:     # one dictionary update per window: the per-element reference
+                r = text[pos:pos + L]
+                pos += L
+                for i in range(L - k + 1):
+                    w = r[i:i + k]
+                    ref[w] = ref.get(w, 0) + 1
+        assert sum(ref.values()) == total
+        _BIG[key] = (text, read_lens, ref)
+    return _BIG[key]
+
+
+def check_bigcount(col, case):
+    import numpy as np
+    import bionumpy as bnp
+    from bionumpy.streams import BnpStream
+    from bionumpy.encoded_array import EncodedRaggedArray
+    fn, total, lens, cuts, mode = case["fn"], case["total"], case["lens"], case["cuts"], case["mode"]
+    k = int(fn.split(":")[1]) if fn.startswith("count_kmers") else 1
+    text, read_lens, ref = big_dataset(total, lens, k)
+    sig = "bigcount:" + fn.split(":")[0] + ":" + mode
+    col.case(case, contract=fn + " of chunks / tables larger than the block size == per-element count")
+
+    def run():
+        flat_seq = bnp.as_encoded_array(text, bnp.DNAEncoding)
+        if fn == "count_encoded:flat":
+            data, f = flat_seq, (lambda c: bnp.count_encoded(c))
+        else:
+            data = EncodedRaggedArray(flat_seq, np.array(read_lens))
+            f = (lambda c: bnp.count_encoded(c, axis=None)) if fn.startswith("count_encoded") else \
+                (lambda c: bnp.sequence.count_kmers(c, k))
+        if mode == "in-memory":
+            return f(data)
+        chunks = pieces(data, cuts)
+        if fn.startswith("count_kmers"):
+            return f(BnpStream(iter(chunks)))          # count_kmers is itself @streamable(sum)
+        return bnp.streamable(sum)(f)(BnpStream(iter(chunks)))
+
+    got = col.guarded(run, sig, case)
+    if got is None:
+        return
+    gd = {a: int(c) for a, c in zip(got.alphabet, np.asarray(got.counts).reshape(-1)) if int(c)}
+    diff = sorted(w for w in set(gd) | set(ref) if gd.get(w, 0) != ref.get(w, 0))
+    col.check(not diff, sig + ":differs-from-per-element-count", case,
+              "%d values counted, expected %d; e.g. %s" % (sum(gd.values()), total,
+                                                           [(w, gd.get(w, 0), ref.get(w, 0)) for w in diff[:4]]))
+
+
+def gen_bigcount(tier, rng):
+    for di, (total, lens) in enumerate(BIG_TOTALS[tier]):
+        for fn in BIG_FNS + (("count_kmers:5",) if tier == "thorough" and di < 2 else ()):
+            k = int(fn.split(":")[1]) if fn.startswith("count_kmers") else 1
+            e = total if fn == "count_encoded:flat" else len(big_read_lens(total, lens, k))   # entries that can be cut
+            yield {"kind": "bigcount", "fn": fn, "total": total, "lens": lens, "cuts": [], "mode": "in-memory"}
+            # one chunk; five chunks (each below the block size up to 5M values); a one-entry chunk followed by a chunk
+            # above the block size; the same mirrored; 10 % + 90 %; two halves
+            for cuts in ([], [e * i // 5 for i in range(1, 5)], [1], [e - 1], [e // 10], [e // 2]):
+                yield {"kind": "bigcount", "fn": fn, "total": total, "lens": lens, "cuts": cuts, "mode": "streamed"}
+
+
+# ----------------------------------------------------------------------------------------------------------------------
 # kind "groupby"
 # ----------------------------------------------------------------------------------------------------------------------
 GROUP_NAMES = ["chr1", "chr2", "chr10", "chr1_alt", "chrX", "c", "chr11", "chr21", "chrY", "chrM"]
@@ -475,8 +601,12 @@ def check_rechunk(col, case):
     from bionumpy.datatypes import Interval
     n, cuts, m, fn, data = case["n"], case["cuts"], case["m"], case["fn"], case["data"]
     sig = "rechunk:" + fn
-    col.case(case, contract=fn + ": chunks of exactly n except the last, order kept")
     vals = [(i * 5 + 1) % 11 + 10 * i for i in range(n)]  # all different: order is observable
+    if any(len(p) == 0 for p in pieces(vals, cuts)):
+        # cut lists with repeated positions / 0 / n: the incoming stream contains EMPTY chunks (what a chunk-wise filter
+        # or an empty chromosome leaves behind); own signatures, the contract is the same
+        sig += ":empty-incoming-chunks"
+    col.case(case, contract=fn + ": chunks of exactly n except the last, order kept")
 
     def run():
         if data == "array":
@@ -504,6 +634,16 @@ def gen_rechunk(tier, rng):
             for m in range(1, n + 2):
                 for fn in ("chunk_entries", "chunk_lines"):
                     datas = ("array", "dataclass") if n <= 5 else (("array",) if (m + len(cuts)) % 2 else ("dataclass",))
+                    for data in datas:
+                        yield {"kind": "rechunk", "fn": fn, "n": n, "cuts": cuts, "m": m, "data": data}
+    # incoming streams WITH empty chunks: every cutting into non-empty chunks x every way of inserting 1..e empty chunks
+    # (leading, between any two chunks, trailing, several in a row) x every n_entries; n = 0 is the all-empty stream
+    nmax_e, max_e = RECHUNK_EMPTY[tier]
+    for n in range(0, nmax_e + 1):
+        for cuts in cuts_with_empties(n, max_e if n <= nmax_e - 1 else 1):
+            for m in range(1, n + 2):
+                for fn in ("chunk_entries", "chunk_lines"):
+                    datas = ("array", "dataclass") if n <= 3 else (("array",) if (m + len(cuts)) % 2 else ("dataclass",))
                     for data in datas:
                         yield {"kind": "rechunk", "fn": fn, "n": n, "cuts": cuts, "m": m, "data": data}
 
@@ -594,6 +734,27 @@ BG_POOL = {"chr1": [(0, 4, 1), (4, 9, 3), (9, 10, 2)], "chr2": [(1, 3, 5), (3, 4
            "chr3": [(0, 6, 4), None, None], "chr4": [(0, 1, 2), (5, 6, 3), (6, 7, 3)]}
 GENOMIC_OPS = ("intervals", "pileup", "pileup:sum", "pileup:histogram", "mask", "mask:sum", "joint", "values",
                "values:stranded", "values:mean", "track", "track:sum", "track:values", "location")
+
+
+# windows of UNEQUAL length for mean(axis=0) over extracted windows: starts per chromosome (any of the widths fits), the
+# widths of the windows of one chromosome are the first c values of a width set, rotated
+WIN_START = {"chr1": [0, 3, 6], "chr2": [0, 2, 4], "chr3": [0, 1, 2], "chr4": [0, 2, 3]}
+WIDTH_SETS = {"421": (4, 2, 1), "442": (4, 4, 2), "413": (4, 1, 3)}
+UNEQUAL_OPS = ("values:mean:unequal-windows", "values:mean:unequal-windows:longest-differs-between-chromosomes")
+
+
+def window_rows(wcounts, wset, rot, cap=None):
+    """(chrom, start, stop) windows, wcounts[i] on chromosome i.  Every chromosome that has windows has a longest window
+    of width 4 (the first value of every width set), at a position that depends on rot and the chromosome - unless
+    cap = index of a chromosome whose windows are all cut to width <= 2."""
+    rows = []
+    for ci, ((name, _), c) in enumerate(zip(CHROMS, wcounts)):
+        for j in range(c):
+            w = WIDTH_SETS[wset][(j - rot - ci) % c]
+            if cap == ci:
+                w = min(w, 2)
+            rows.append((name, WIN_START[name][j], WIN_START[name][j] + w))
+    return rows
 
 
 def genomic_rows(counts):
@@ -705,6 +866,14 @@ def check_genomic(col, case):
             r = compute(istream(cuts).get_pileup()[w].mean(axis=0))
             win = [pile[c][s:s + 2] for c, s, e, _ in rows]
             return flat(r), [sum(w_[j] for w_ in win) / len(win) for j in range(2)]
+        if op in UNEQUAL_OPS:
+            # windows of different length: column j of the mean is over the windows that reach column j
+            wins = window_rows(case["wcounts"], case["wset"], case["rot"], case.get("cap"))
+            full = Interval([r[0] for r in wins], [r[1] for r in wins], [r[2] for r in wins])
+            w = genome.get_intervals(NpDataclassStream((p for p in pieces(full, cuts2)), dataclass=Interval))
+            r = compute(istream(cuts).get_pileup()[w].mean(axis=0))
+            cols = [[pile[c][s + j] for c, s, e in wins if s + j < e] for j in range(max(e - s for c, s, e in wins))]
+            return flat(r), [sum(v) / len(v) for v in cols]
         if op.startswith("track"):
             brow = bedgraph_rows(counts)
             full = BedGraph([r[0] for r in brow], [r[1] for r in brow], [r[2] for r in brow], [r[3] for r in brow])
@@ -727,8 +896,52 @@ def check_genomic(col, case):
     r = col.guarded(run, sig, case)
     if r is not None:
         got, exp = r
-        ok = close(got, exp) if op == "values:mean" else got == exp
+        ok = close(got, exp) if op == "values:mean" or op in UNEQUAL_OPS else got == exp
         col.check(ok, sig + ":differs-from-in-memory", case, "got %r expected %r" % (got, exp))
+
+
+def winmean_bounds(tier):
+    return (2, {1: 2, 2: 4, 3: 4, 4: 3}) if tier == "quick" else (3, {1: 3, 2: 5, 3: 4, 4: 4})
+
+
+def gen_winmean(tier, rng):
+    """mean(axis=0) over windows of unequal length: reads as in the other genomic cases (counts, all cuts), windows with
+    their own per-chromosome counts (same as the reads / reversed: chromosomes with reads and no windows and vice versa)
+    and their own chunking; at least one chromosome has two or more windows (of different length)"""
+    quick = tier == "quick"
+    maxper, nmax = winmean_bounds(tier)
+    i = 0
+    for nchrom in (1, 2, 3, 4):
+        for counts in itertools.product(range(maxper + 1), repeat=nchrom):
+            n = sum(counts)
+            if n == 0 or n > nmax[nchrom]:
+                continue
+            counts = list(counts)
+            for wcounts in ([counts] if counts == counts[::-1] else [counts, counts[::-1]]):
+                if max(wcounts) < 2:
+                    continue      # all windows of width 4: that is op "values:mean"
+                for cuts in all_cuts(n):
+                    # the windows' chunking: all for n <= 2, else the reads' cut set and the complementary one
+                    # (quick, 4 chromosomes: the complementary one only)
+                    c2s = list(all_cuts(n)) if n <= 2 else [cuts, [k for k in range(1, n) if k not in cuts]]
+                    for c2 in c2s[1 if quick and nchrom == 4 else 0:]:
+                        i += 1
+                        # width set and rotation: all combinations for the small cases, one or two (rotating) above (time)
+                        combos = [(ws, rot) for ws in sorted(WIDTH_SETS) for rot in range(max(wcounts))]
+                        if not (nchrom == 1 or (nchrom == 2 and n <= (2 if quick else 3))):
+                            two = not quick and nchrom == 2
+                            combos = [combos[i % len(combos)]] + ([combos[(i + 4) % len(combos)]] if two else [])
+                        for ws, rot in combos:
+                            yield {"kind": "genomic", "op": UNEQUAL_OPS[0], "counts": counts, "wcounts": wcounts, "cuts": cuts,
+                                   "cuts2": c2, "wset": ws, "rot": rot}
+    # the longest window is shorter on one chromosome than on the others (small scope: the streamed mean adds the
+    # per-chromosome column sums, which have different lengths then)
+    for counts in ([2, 1], [1, 2], [2, 2]) if quick else ([2, 1], [1, 2], [2, 2], [2, 0, 2], [1, 2, 1], [3, 2]):
+        n = sum(counts)
+        for cap in [ci for ci, c in enumerate(counts) if c]:
+            for cuts in all_cuts(n) if not quick else ([], list(range(1, n))):
+                yield {"kind": "genomic", "op": UNEQUAL_OPS[1], "counts": counts, "wcounts": counts, "cuts": cuts,
+                       "cuts2": [k for k in range(1, n) if k not in cuts], "wset": "421", "rot": 0, "cap": cap}
 
 
 def genomic_bounds(tier):
@@ -800,6 +1013,17 @@ def check_file(col, case, tmp):
                 genome = bnp.Genome.from_dict(dict(sizes))
                 got = int(compute(genome.get_intervals(stream).get_pileup().sum()))
                 return got, sum(r[2] - r[1] for r in rows)
+            if op.startswith("filter:"):
+                # chunk-wise filter (rows of the first / last chromosome) leaves empty chunks behind (trailing / leading),
+                # then re-chunk to m entries
+                from bionumpy.streams import BnpStream
+                from bionumpy.streams.chunk_entries import chunk_entries
+                from bionumpy.io.parser import chunk_lines
+                keep, m = (rows[0][0] if case["keep"] == "first" else rows[-1][0]), case["m"]
+                filtered = (c[c.chromosome == keep] for c in stream)
+                out = chunk_lines(filtered, m) if op == "filter:chunk_lines" else chunk_entries(BnpStream(filtered), m)
+                got = [list(zip(to_py(c.chromosome), c.start.tolist(), c.stop.tolist())) for c in out]
+                return ([r for c in got for r in c], all(len(c) == m for c in got[:-1])), ([r[:3] for r in rows if r[0] == keep], True)
         raise ValueError(op)
 
     r = col.guarded(run, sig, case)
@@ -815,13 +1039,16 @@ def gen_file(tier, rng):
         for k in range(12, total + 3):
             for op in ("groupby", "mean", "bincount", "pileup:sum"):
                 yield {"kind": "file", "op": op, "counts": counts, "chunk_size": k}
+            for op in ("filter:chunk_lines", "filter:chunk_entries"):
+                for m in ((1, 2, 3) if tier == "thorough" else (1 + k % 3,)):
+                    yield {"kind": "file", "op": op, "counts": counts, "chunk_size": k, "keep": ("first", "last")[(k + m) % 2], "m": m}
 
 
 # ----------------------------------------------------------------------------------------------------------------------
-CHECKS = {"reduce": check_reduce, "histauto": check_histauto, "kmers": check_kmers, "groupby": check_groupby,
+CHECKS = {"bigcount": check_bigcount, "reduce": check_reduce, "histauto": check_histauto, "kmers": check_kmers, "groupby": check_groupby,
           "rechunk": check_rechunk, "graph": check_graph, "genomic": check_genomic,
           "chrommap": check_chrommap}
-GENS = [("rechunk", gen_rechunk), ("reduce", gen_reduce), ("histauto", gen_histauto), ("graph", gen_graph),
+GENS = [("rechunk", gen_rechunk), ("bigcount", gen_bigcount), ("winmean", gen_winmean), ("reduce", gen_reduce), ("histauto", gen_histauto), ("graph", gen_graph),
         ("kmers", gen_kmers), ("groupby", gen_groupby), ("chrommap", gen_chrommap), ("genomic", gen_genomic), ("file", gen_file)]
 
 def run_case(col, case, tmp):
@@ -834,11 +1061,13 @@ def run_case(col, case, tmp):
 def run(tier="quick", seed=0):
     col = Collector(PID, tier, seed,
                     "exhaustive: dataset of n entries x all 2^(n-1) cuts into consecutive non-empty chunks x every listed computation "
-                    "(reductions, k-mer counts, group-by over every composition of n into groups, re-chunking for every n_entries, "
+                    "(reductions, k-mer counts, group-by over every composition of n into groups, re-chunking for every n_entries "
+                    "incl. incoming streams with empty chunks at every position, symbol/k-mer counts of chunks above the 1,000,000 block size, "
+                    "mean over windows of unequal length, "
                     "computation-graph expressions, per-chromosome pipelines on genomes of 1..4 chromosomes with every "
                     "per-chromosome entry count, reader-made chunks for every min_chunk_size); seeded cut sets above the bound; "
                     "distinct = distinct (kind, computation, dataset, cut set); non-trivial = all (n=1 / one chunk are the base cases)",
-                    budget_s=60 if tier == "quick" else 570)
+                    budget_s=75 if tier == "quick" else 640)
     quick = tier == "quick"
     nm = NMAX[tier]
     maxper, gmax = genomic_bounds(tier)
@@ -853,12 +1082,24 @@ def run(tier="quick", seed=0):
         "groupby keys": list(KEYKINDS),
         "chrommap n": "1..%d x all compositions" % (5 if quick else 7),
         "rechunk": "n 1..%d x n_entries 1..n+1 x {chunk_entries, chunk_lines} x {ndarray, dataclass}" % nm["rechunk"],
+        "rechunk with empty incoming chunks": "n 0..%d x all cuts x every multiset of 1..%d positions for empty chunks (n = %d: 1) "
+                                              "x n_entries 1..n+1 x {chunk_entries, chunk_lines}"
+                                              % (RECHUNK_EMPTY[tier][0], RECHUNK_EMPTY[tier][1], RECHUNK_EMPTY[tier][0]),
+        "bigcount": "numbers of counted values %s (block size of count_encoded: %d) x {count_kmers k=3%s, count_encoded flat, "
+                    "count_encoded ragged axis=None} x {in-memory, one chunk, 5 chunks, 1 entry + rest, rest + 1 entry, 10%%+90%%, halves}"
+                    % ([t for t, _ in BIG_TOTALS[tier]], BIG_BLOCK, "" if quick else " (k=5 on two datasets)"),
+        "genomic mean over unequal windows": "1..4 chromosomes, 0..%d reads per chromosome, n <= %s; windows per chromosome = read counts "
+                                             "or reversed, >= 2 windows on some chromosome; width sets %s x rotations (all for <= 2 "
+                                             "chromosomes and small n, rotating above); windows' chunking: all cuts for n<=2, else same + "
+                                             "complementary; longest window shorter on one chromosome: %d datasets"
+                                             % (winmean_bounds(tier)[0], winmean_bounds(tier)[1], sorted(WIDTH_SETS), 3 if quick else 6),
         "graph n": "1..%d" % nm["graph"], "graph ops": list(GRAPH_OPS),
         "genomic": "1..4 chromosomes, 0..%d entries per chromosome, n <= %s (by number of chromosomes); second stream: all cuts "
                    "for n<=3, else same + complementary cut set (quick: two-stream ops on 4 chromosomes only for n<=3); n=10 x 2 datasets x %s"
                    % (maxper, gmax, "10 sampled cuts" if quick else "all 512 cuts"),
         "genomic ops": list(GENOMIC_OPS),
-        "file": "BED files of %s lines x every min_chunk_size 12..file size+2 x {groupby, mean, bincount, pileup sum}" % ("4..5" if quick else "1..8"),
+        "file": "BED files of %s lines x every min_chunk_size 12..file size+2 x {groupby, mean, bincount, pileup sum, chunk-wise filter on "
+                "the first/last chromosome + chunk_lines / chunk_entries to %s entries}" % ("4..5" if quick else "1..8", "1..3 (rotating)" if quick else "1,2,3"),
     }
     with TmpDir() as tmp:
         for kind, gen in GENS:
